@@ -103,6 +103,8 @@ def xref_class(e):
         return "reaction-genes-differ-from-rule"
     if ".model is not the model" in e:
         return "object-does-not-point-at-model"
+    if "share one gene rule object" in e:
+        return "reactions-share-a-rule-object"
     if "zero coefficient" in e:
         return "zero-coefficient-entry"
     if "duplicate" in e:
